@@ -196,6 +196,6 @@ func c16Run(ctx *Ctx, c c16Case) {
 func TestC16(t *testing.T) {
 	r := newRec("C16",
 		"exhaustive: every name of the N1 function list (hand-copied, incl. not(), R4 extension(), STU join()) ∪ every name in funcs.Clone() ∪ the experimental table ∪ a few absent/mis-cased names × argument counts 0..4 × {default, WithExperimentalFuncs}, plus one characteristic example per specified function (a concatenation of probes chosen so that no other table function gives the same result: counter example_pairs_discriminated, and example_does_not_discriminate:f/g for any pair left); non-trivial = the name is in the table or the count is within the specification's range (the cells where acceptance matters); all tuples are distinct",
-		"the N1 function list, argument counts and examples in harness/common_fn_test.go are copied from the specification by hand", "placeholder entries are recognised as the one function value bound to ≥ 3 names")
+		"the N1 function list, argument counts and examples in harness/common_fn_test.go are copied from the specification by hand", "placeholder entries are recognised as the one function value bound to ≥ 3 names; they must fail explicitly on the well-typed receiver and on empty, absent, multi-item and other-typed inputs")
 	runProperty(t, r, Stage[c16Case]{Name: "table", Enum: c16Enum, Run: c16Run})
 }
